@@ -233,3 +233,33 @@ Lemma bins_valid nodes g0 g : (forall n, deg g n = deg g0 n) -> forall k, bin no
 Proof.
   intros H k. unfold bin. apply filter_ext. intros n. rewrite H. reflexivity.
 Qed.
+
+(* ---------------------------------------------------------------- one iteration, stated on swap_step *)
+Lemma step_distinct nodes g0 s s' : simple (st_g s) -> swap_step nodes g0 s = Next s' ->
+  unchanged s s' \/ exists a b c d, swapped nodes g0 s s' a b c d /\ NoDup [a; b; c; d].
+Proof.
+  intros Hs H. apply swap_step_cases in H. destruct H as [H|[a [b [c [d H]]]]]; [left; exact H|].
+  right. exists a, b, c, d. split; [exact H|]. destruct H as [Hok _]. exact (swap_distinct _ _ _ _ _ Hs Hok).
+Qed.
+
+Lemma step_degree nodes g0 s s' : simple (st_g s) -> swap_step nodes g0 s = Next s' ->
+  forall n, deg (st_g s') n = deg (st_g s) n.
+Proof.
+  intros Hs H n. apply swap_step_cases in H. destruct H as [[-> _]|[a [b [c [d [Hok [_ [_ [_ [-> _]]]]]]]]]]; [reflexivity|].
+  exact (swap_degree _ _ _ _ _ Hs Hok n).
+Qed.
+
+Lemma step_simple nodes g0 s s' : simple (st_g s) -> swap_step nodes g0 s = Next s' -> simple (st_g s').
+Proof.
+  intros Hs H. apply swap_step_cases in H. destruct H as [[-> _]|[a [b [c [d [Hok [_ [_ [_ [-> _]]]]]]]]]]; [exact Hs|].
+  exact (swap_simple _ _ _ _ _ Hs Hok).
+Qed.
+
+Lemma step_count nodes g0 s s' : simple (st_g s) -> swap_step nodes g0 s = Next s' ->
+  length (st_g s') = length (st_g s) /\
+  forall orig, nodupu orig -> length (missing orig (st_g s')) <= length (missing orig (st_g s)) + 2.
+Proof.
+  intros Hs H. apply swap_step_cases in H. destruct H as [[-> _]|[a [b [c [d [Hok [_ [_ [_ [-> _]]]]]]]]]].
+  - split; [reflexivity | intros; lia].
+  - split; [exact (swap_length _ _ _ _ _ Hs Hok) | intros orig Ho; exact (missing_swap orig _ a b c d Ho)].
+Qed.
